@@ -892,6 +892,12 @@ class EventBus:
                 except Exception as e:
                     logger.exception(f'❌ {self} Error in event loop: {type(e).__name__} {e}', exc_info=True)
                     # Continue running even if there's an error
+
+                # A cancellation of this task can be absorbed by cleanup code further down (e.g. it arrives while a handler's
+                # monitor task that was just cancelled is being awaited): it must still end the run loop
+                current_task = asyncio.current_task()
+                if current_task is not None and current_task.cancelling():
+                    break
         except asyncio.CancelledError:
             # Task was cancelled, clean exit
             # logger.debug(f'🛑 {self} Event loop task cancelled')
